@@ -72,6 +72,7 @@ func BuildStructCodec(p CodecBuilder, registry CodecRegistry, typ reflect.Type, 
 
 	wrapped := &wrappedCodecRegistry{CodecRegistry: registry, typ: typ, tag: tag, codec: &c}
 	registry = wrapped
+	verifYield("struct-start")
 
 	var maxIndex int
 	var count int
@@ -140,7 +141,9 @@ func BuildStructCodec(p CodecBuilder, registry CodecRegistry, typ reflect.Type, 
 		if sf.Type.Kind() == reflect.Map {
 			field.deref = true
 		}
+		verifYield("struct-field")
 	}
+	verifYield("struct-before-index")
 	c.fields = c.fields[:count]
 
 	c.fieldsByIndex = make([]shortDesc, maxIndex+1)
@@ -155,6 +158,7 @@ func BuildStructCodec(p CodecBuilder, registry CodecRegistry, typ reflect.Type, 
 	}
 
 	// The codec is complete: codecs that refer to it can be made available
+	verifYield("struct-before-publish")
 	wrapped.publish()
 
 	return &c, nil
